@@ -755,7 +755,9 @@ def sync_traces(rr, spec, inert=None, only=None):
         # the total a callback is told: the size of the source (push) resp. what the device's STAT reported (pull)
         told = op['stat_size'] if (api == 'pull' and op.get('stat_size') is not None) else size
         for (path, n, total) in rr.extra.get('cb', {}).get(i, []):
-            tr.append(dict(ev='cbk', n=n, total=min(total, 2 ** 30) if isinstance(total, int) and total >= 0 else -1, totalOk=(total == told)))
+            # for a stream the caller has already read from, "the size" may be what is left or the whole buffer: both are accepted
+            ok_tot = (total == told) or (api == 'push' and op.get('src_offset') and total == told + op['src_offset'])
+            tr.append(dict(ev='cbk', n=n, total=min(total, 2 ** 30) if isinstance(total, int) and total >= 0 else -1, totalOk=bool(ok_tot)))
         # bad ids are those not valid at that point of the exchange: mark via the plan
         plan = op.get('plan') or {}
         if plan.get('bad_id'):
@@ -778,7 +780,8 @@ def sync_traces(rr, spec, inert=None, only=None):
         else:
             reason = plan.get('reason', '')
             rb = reason.encode('latin1')
-            forms = [reason, rb.decode('utf8', 'backslashreplace'), repr(rb)[2:-1], rb.decode('utf8', 'replace')]
+            forms = [reason, rb.decode('utf8', 'backslashreplace'), repr(rb)[2:-1], rb.decode('utf8', 'replace'),
+                     repr(bytearray(rb))[12:-2], repr(reason)[1:-1], repr(rb.decode('utf8', 'replace'))[1:-1]]       # whatever quoting repr() chose
             tr.append(dict(ev='exc', api=api, cls=o.exc_name, reasonIn=any(f in str(o.exc) for f in forms) if reason else True,
                            healthy=not plan and not spec.get('faulty') and not isinstance(op.get('dest'), list) and 'budget' not in op, inert=ok_inert, dir=files is not None))
         out.append((i, tr))
